@@ -117,7 +117,7 @@ register(
     level="proof",
     streams=["edf", "steps", "demand", "fixed_point"],
     falsifier=fals_analyses.falsify_C02,
-    partial=["arrival models outside the C11 findings; NP/LP variants use a scalar WCET as in the crate's API"],
+    partial=["arrival models outside the C11 findings; NP/LP variants use a scalar WCET as in the crate's API; task-set level theorems (*_safe_task_set) derive the workload bounds from curve-compliant releases and compliant execution times"],
     explanation="the abstract JLFP busy-window theorem instantiated for EDF with arbitrary tie-breaking: offset < L via the global busy window, blocking only by later-deadline tasks (D_o > D + A), interference only by jobs with deadlines up to the analysed job's (rbf_o(min(AF, A+1+D-D_o))), run-to-completion threshold; composed with C06.",
 )
 
